@@ -109,6 +109,7 @@ func fileFixtures(r *rand.Rand, thorough bool) []*fileFixture {
 	// interior nodes whose Data field is present but empty (content-identical to leaving it out)
 	hand(handFileOpts{Width: 3, PBLeaves: true, LeafType: 2, EmptyData: true}, 49)
 	hand(handFileOpts{Width: 2, PBLeaves: false, EmptyData: true}, 33)
+	hand(handFileOpts{Width: 3, PBLeaves: true, LeafType: 2, InteriorRaw: true, EmptyData: true}, 37)
 	// one block size too many (a trailing 0 entry without a link)
 	hand(handFileOpts{Width: 3, PBLeaves: true, LeafType: 2, ExtraBlockSize: true}, 50)
 	{
